@@ -184,6 +184,8 @@ def classify(case, io, mo):
         if case["enum"] in HS_FAMILY:
             return "c12_heap_search_filter_loses_programs"
     if "merges" in case and stopped and mo["nodup"] == 1 and mo["members"] == 1:
+        if case["enum"] == "bs" and case["weights"]["kind"] != "uniform" and mo["no_merged_after"] == 1 and mo["missing"]:
+            return "c12_bee_search_merge_stops_early"
         if case["enum"] in HS_FAMILY and (mo["no_merged_after"] == 0 or mo["missing"]):
             return "c12_heap_search_merge_bookkeeping"
         if case["enum"] == "cd" and (mo["no_merged_after"] == 0 or mo["missing"]):
